@@ -119,6 +119,12 @@ Definition spec_attr_failure (code flags : N) (b : bytes) (e : err) : bool :=
         end
   end.
 
+(* the error a flag conflict must produce: treat-as-withdraw, fallback (3,4, attribute) *)
+Definition spec_flag_err (code flags : N) (b : bytes) (want : bool * bool) : option err :=
+  if flags_match flags want then None
+  else Some (ETaw code (Some (mkNotif 3 4 (spec_attr_tlv code b)))).
+Definition has_notif_o (e : option err) : bool := match e with Some e => has_notif e | None => false end.
+
 (* ---------- UPDATE split ---------- *)
 Definition spec_sections (b : bytes) : option (bytes * bytes * bytes) :=
   match b with
@@ -136,6 +142,12 @@ Definition spec_sections (b : bytes) : option (bytes * bytes * bytes) :=
 
 Inductive attrs_end := EndClean | EndOverrun (code : N) | EndDupMP.
 
+(* Extended Length bit (0x10): two-octet length, else one octet *)
+Definition spec_attr_header (flags : N) (r : bytes) : option (N * bytes) :=
+  if 16 <=? flags mod 32
+  then match r with l1 :: l0 :: r' => Some (l1 * 256 + l0, r') | _ => None end
+  else match r with l0 :: r' => Some (l0, r') | _ => None end.
+
 (* walk the attribute block: first occurrences in wire order, later duplicates
    skipped, repeated MP attribute aborts, overrun ends the walk *)
 Fixpoint spec_attrs (fuel : nat) (a : bytes) (seen_codes : list N) : list (N * N * bytes) * attrs_end :=
@@ -146,10 +158,7 @@ Fixpoint spec_attrs (fuel : nat) (a : bytes) (seen_codes : list N) : list (N * N
       | [] => ([], EndClean)
       | [_] => ([], EndOverrun 0)
       | flags :: code :: r =>
-          let ext := 16 <=? flags mod 32 in
-          let hdr := if ext then match r with l1 :: l0 :: r' => Some (l1 * 256 + l0, r') | _ => None end
-                     else match r with l0 :: r' => Some (l0, r') | _ => None end in
-          match hdr with
+          match spec_attr_header flags r with
           | None => ([], EndOverrun code)
           | Some (len, r') =>
               if blen r' <? len then ([], EndOverrun code) else
